@@ -158,6 +158,7 @@ func leafTypesIn(n *dm.Node, t dm.Tree, out map[string]bool) {
 
 func c04Run(c c04Case, o *hx.Obs) {
 	root := c.Module.Root()
+	schemaClasses(o, c.Module)
 	mm, err := loadDM(c.Module)
 	if err != nil {
 		o.Failf("harness|schema-rejected", "generated schema does not load: %v\n%s", err, c.Module.Yang())
